@@ -484,6 +484,299 @@ fn case_dict(c: &mut Case, name: &str, text: Vec<u8>) -> Res {
     Ok(())
 }
 
+
+// ------------------------------------------------------------------------------------------------------------------
+// huge inputs (70 KiB - 1 MiB, repeats / runs / LCP values above 2^16): the direct-comparison oracles above are O(n * lcp),
+// so these cases use an independent exact O(n log^2 n) oracle: prefix doubling with all rank levels kept.
+//   * SA:  must equal the doubling SA (the suffix array is unique);
+//   * LCP: lcp(i, j) by binary lifting over the rank levels (rank_t[i] == rank_t[j]  <=>  the next 2^t bytes agree);
+//   * occurrences of text[p..p+m]: the block around rank[p] in the doubling SA whose adjacent LCPs are >= m.
+// The oracle checks itself on a sample of adjacent pairs by direct comparison (a disagreement is `inconclusive`, never a verdict).
+// ------------------------------------------------------------------------------------------------------------------
+pub struct Huge { pub text: Vec<u8>, pub sa: Vec<u32>, pub rank: Vec<u32>, levels: Vec<Vec<u32>>, pub lcps: Vec<u32> }
+impl Huge {
+    pub fn new(text: Vec<u8>) -> Huge {
+        let n = text.len();
+        let mut rank: Vec<u32> = text.iter().map(|&b| b as u32 + 1).collect();      // 0 = past the end
+        let mut sa: Vec<u32> = (0..n as u32).collect();
+        let mut levels: Vec<Vec<u32>> = vec![]; let mut k = 1usize;
+        if n > 0 { loop {
+            let key = |i: u32| -> u64 { let i = i as usize; ((rank[i] as u64) << 32) | (if i + k < n { rank[i + k] } else { 0 }) as u64 };
+            if levels.is_empty() { sa.sort_unstable_by_key(|&i| rank[i as usize]); }
+            // level t (prefix length 2^t) is `rank`; the next one sorts by (rank[i], rank[i+k])
+            levels.push(rank.clone());
+            sa.sort_unstable_by_key(|&i| key(i));
+            let mut nr = vec![0u32; n]; let mut cur = 1u32; nr[sa[0] as usize] = 1;
+            for w in 1..n { if key(sa[w]) != key(sa[w - 1]) { cur += 1; } nr[sa[w] as usize] = cur; }
+            rank = nr; k *= 2;
+            if cur as usize == n || k >= 2 * n { levels.push(rank.clone()); break; }
+        } }
+        let mut inv = vec![0u32; n]; for (r, &p) in sa.iter().enumerate() { inv[p as usize] = r as u32; }
+        let mut h = Huge { text, sa, rank: inv, levels, lcps: vec![] };
+        let mut l = vec![0u32; n]; for r in 1..n { l[r] = h.lcp(h.sa[r - 1] as usize, h.sa[r] as usize) as u32; }
+        h.lcps = l; h
+    }
+    /// exact longest common prefix of the suffixes at i and j
+    pub fn lcp(&self, i: usize, j: usize) -> usize {
+        let n = self.text.len(); if i == j { return n - i; }
+        let mut l = 0usize;
+        for t in (0..self.levels.len()).rev() {
+            let (a, b) = (i + l, j + l); if a >= n || b >= n { break; }
+            if self.levels[t][a] == self.levels[t][b] { l += 1usize << t; }
+        }
+        l.min(n - i.max(j))
+    }
+    /// positions where text[p..p+m] occurs (ascending); with `alt`: where text[p..p+m-1] followed by byte `alt` occurs
+    pub fn occ(&self, p: usize, m: usize, alt: Option<u8>) -> Vec<usize> {
+        let n = self.text.len(); let need = if alt.is_some() { m - 1 } else { m };
+        if need == 0 { let mut v: Vec<usize> = (0..n).filter(|&i| match alt { Some(b) => self.text[i] == b, None => true }).collect(); v.sort(); return v; }
+        let r = self.rank[p] as usize; let (mut lo, mut hi) = (r, r + 1);
+        while lo > 0 && self.lcps[lo] as usize >= need { lo -= 1; }
+        while hi < n && self.lcps[hi] as usize >= need { hi += 1; }
+        let mut v: Vec<usize> = self.sa[lo..hi].iter().map(|&x| x as usize).filter(|&i| match alt { Some(b) => i + need < n && self.text[i + need] == b, None => true }).collect();
+        v.sort(); v
+    }
+    /// direct comparison of a sample of adjacent pairs: guards the oracle itself
+    fn selfcheck(&self, r: &mut Rng) -> Res {
+        let n = self.text.len(); if n < 2 { return Ok(()); }
+        for _ in 0..48 { let k = 1 + r.usize_below(n - 1); let (a, b) = (self.sa[k - 1] as usize, self.sa[k] as usize);
+            let d = lcp(&self.text[a..], &self.text[b..]);
+            let ordered = if a + d == n { true } else if b + d == n { false } else { self.text[a + d] < self.text[b + d] };
+            if !ordered || d != self.lcps[k] as usize { return crate::ctx::inconclusive(format!("doubling oracle inconsistent at rank {k}: lcp {} vs direct {d}, ordered={ordered}", self.lcps[k])); } }
+        Ok(())
+    }
+}
+
+const HUGE_FAMS: &[&str] = &["huge_xcxd", "huge_akb", "huge_dominant", "huge_runs", "huge_periodic", "huge_1m"];
+/// (text, anchors): anchors are (position, length) of substrings worth searching for (the long repeats)
+fn huge_text(r: &mut Rng, fam: &str) -> (Vec<u8>, Vec<(usize, usize)>) {
+    match fam {
+        "huge_xcxd" => { // X c X d, |X| >= 65 536: two suffix families whose LCP exceeds 2^16
+            let m = *r.pick(&[65_536usize, 65_537, 70_000, 98_304, 131_072]); let ak = *r.pick(&[2usize, 4, 16, 256]); let a = alphabet(r, ak);
+            let x: Vec<u8> = (0..m).map(|_| *r.pick(&a)).collect(); let c = r.next() as u8; let d = c.wrapping_add(1 + r.below(255) as u8);
+            let mut t = x.clone(); t.push(c); t.extend_from_slice(&x); t.push(d);
+            (t, vec![(0, m), (0, m + 1), (m + 1, m), (m + 1, m + 1), (0, 2 * m + 2), (7, m - 7), (m / 2, m / 2 + 1), (m + 1 + m / 3, m - m / 3), (1, 65_536.min(m - 1))]) }
+        "huge_akb" => { // one symbol occurring > 65 535 times in a row
+            let k = *r.pick(&[65_536usize, 65_537, 70_000, 100_000, 196_609]); let a = r.next() as u8; let b = a.wrapping_add(1 + r.below(255) as u8);
+            let t = match r.below(5) { 0 | 1 => { let mut t = vec![a; k]; t.push(b); t } 2 => { let mut t = vec![b]; t.extend(vec![a; k]); t } 3 => vec![a; k + 1],
+                _ => { let h = k / 2 + 1; let mut t = vec![a; h]; t.push(b); t.extend(vec![a; h]); t } };
+            let n = t.len(); (t, vec![(0, 65_536.min(n)), (0, n), (1, n - 1), (n - 65_537.min(n), 65_537.min(n)), (0, 2), (n / 2, n - n / 2), (3, 65_535.min(n - 3))]) }
+        "huge_dominant" => { let n = *r.pick(&[65_537usize, 131_073, 200_000, 262_145]); let pct = 60 + r.below(40); let dom = r.next() as u8; let a = alphabet_k(r);
+            let t: Vec<u8> = (0..n).map(|_| if r.below(100) < pct { dom } else { *r.pick(&a) }).collect();
+            let anchors = (0..6).map(|_| { let p = r.usize_below(n); (p, 1 + r.usize_below((n - p).min(300))) }).collect(); (t, anchors) }
+        "huge_runs" => { // run-expanded text: most runs short, one or two longer than 2^16
+            let ak = 2 + r.usize_below(7); let a = alphabet(r, ak); let nb = 20 + r.usize_below(180); let big1 = r.usize_below(nb); let big2 = if r.bool() { r.usize_below(nb) } else { nb };
+            let mut t = vec![]; let mut anchors = vec![];
+            for i in 0..nb { let sym = *r.pick(&a); let len = if i == big1 || i == big2 { 65_536 + r.usize_below(3000) } else if r.chance(1, 10) { 1 + r.usize_below(3000) } else { 1 + r.usize_below(40) };
+                if len > 60_000 { anchors.push((t.len(), len)); anchors.push((t.len() + 1, 65_536)); if t.len() > 0 { anchors.push((t.len() - 1, len + 1)); } }
+                t.extend(std::iter::repeat(sym).take(len)); if t.len() > 300_000 { break; } }
+            let n = t.len(); anchors.push((0, n)); anchors.push((n - 1, 1)); (t, anchors) }
+        "huge_periodic" => { // > 1000:1 compressible; alphabet <= 4 (these go only to targets that resolve to SA-IS: a comparison sort needs O(n^2 log n) here)
+            let n = *r.pick(&[65_537usize, 131_073, 262_145]); let p = 1 + r.usize_below(8); let ak = 1 + r.usize_below(4); let a = alphabet(r, ak); let pat: Vec<u8> = (0..p).map(|_| *r.pick(&a)).collect();
+            let mut t: Vec<u8> = (0..n).map(|i| pat[i % p]).collect();
+            match r.below(3) { 0 => {} 1 => { t[n - 1] = a[0]; } _ => { let i = n / 2 + r.usize_below(100); t[i] = *r.pick(&a); } }
+            (t, vec![(0, n), (1, n - 1), (p, 65_536), (0, 65_537), (n.saturating_sub(70_000), 70_000.min(n)), ((n / 2).saturating_sub(40_000), 80_100.min(n / 2))]) }
+        "huge_1m" => { let n = (1usize << 20) - 1 + r.usize_below(3); let ak = *r.pick(&[4usize, 256]); let a = alphabet(r, ak); let t: Vec<u8> = (0..n).map(|_| *r.pick(&a)).collect();
+            let anchors = (0..6).map(|_| { let p = r.usize_below(n); (p, 1 + r.usize_below((n - p).min(40))) }).collect(); (t, anchors) }
+        _ => unreachable!("huge family {fam}"),
+    }
+}
+fn huge_setup(c: &mut Case, fam: &str) -> Result<(Huge, Vec<(usize, usize)>), Fail> {
+    let (t, anchors) = huge_text(&mut c.rng, fam);
+    c.input("text", &t); c.hash_more(&t); len_note(c, t.len()); c.note("huge", 1);
+    let h = Huge::new(t); h.selfcheck(&mut c.rng)?;
+    let m = h.lcps.iter().copied().max().unwrap_or(0); if m > 65_535 { c.note("maxlcp_gt65535", 1); }
+    Ok((h, anchors))
+}
+fn check_sa_huge(c: &mut Case, h: &Huge, sa: &[usize], what: &str) -> Res {
+    let n = h.text.len();
+    ensure!(sa.len() == n, "sa_len", "{what}: suffix array has {} entries for a text of length {n}", sa.len());
+    let mut seen = vec![false; n];
+    for (r, &p) in sa.iter().enumerate() {
+        ensure!(p < n, "sa_not_permutation", "{what}: SA[{r}]={p} out of range (n={n})");
+        ensure!(!seen[p], "sa_not_permutation", "{what}: position {p} appears twice (second time at rank {r}) n={n}"); seen[p] = true; }
+    for r in 0..n { ensure!(sa[r] == h.sa[r] as usize, "sa_order", "{what}: rank {r}: got suffix@{} but the sorted order has suffix@{} there (n={n}, lcp of the two = {}) text={}", sa[r], h.sa[r], h.lcp(sa[r], h.sa[r] as usize), gen::abbrev(&h.text)); }
+    c.ev(2 * n as u64); Ok(())
+}
+/// LCP definition relative to the library's own array `sa`, evaluated with the doubling oracle
+fn check_lcp_huge(c: &mut Case, h: &Huge, sa: &[usize], lcpv: &[usize], what: &str) -> Res {
+    let n = h.text.len();
+    ensure!(lcpv.len() == n, "lcp_len", "{what}: LCP array has {} entries, text length {n}", lcpv.len());
+    for (r, &p) in sa.iter().enumerate() { ensure!(p < n, "sa_not_permutation", "{what}: SA[{r}]={p} out of range (n={n})"); }
+    if n == 0 { return Ok(()); }
+    ensure!(lcpv[0] == 0, "lcp_value", "{what}: lcp[0]={} want 0", lcpv[0]);
+    for r in 1..n.min(sa.len()) { let want = h.lcp(sa[r - 1], sa[r]); ensure!(lcpv[r] == want, "lcp_value", "{what}: lcp[{r}]={} want {want} (suffixes @{} and @{}, n={n}) text={}", lcpv[r], sa[r - 1], sa[r], gen::abbrev(&h.text)); }
+    c.ev(n as u64); Ok(())
+}
+/// patterns as (pattern bytes, exact occurrence list)
+fn huge_patterns(c: &mut Case, h: &Huge, anchors: &[(usize, usize)]) -> Result<Vec<(Vec<u8>, Vec<usize>)>, Fail> {
+    let n = h.text.len(); let mut out = vec![];
+    for &(p, m) in anchors { if m == 0 || p + m > n { continue; }
+        out.push((h.text[p..p + m].to_vec(), h.occ(p, m, None)));
+        let alt = h.text[p + m - 1].wrapping_add(1 + c.rng.below(255) as u8); let mut q = h.text[p..p + m].to_vec(); q[m - 1] = alt; out.push((q, h.occ(p, m, Some(alt))));     // last byte changed
+        if p + m == n { let x = c.rng.next() as u8; let mut q = h.text[p..].to_vec(); q.push(x); out.push((q, h.occ(p, m + 1, Some(x)))); }                                                              // runs past the end
+    }
+    for _ in 0..6 { let p = c.rng.usize_below(n); let m = 1 + c.rng.usize_below((n - p).min(12)); out.push((h.text[p..p + m].to_vec(), h.occ(p, m, None))); }
+    // guard on the oracle: short patterns are re-derived by a plain scan (a disagreement is a harness problem, not a verdict)
+    for (q, o) in out.iter() { if q.len() <= 16 && !q.is_empty() { let s2 = scan(&h.text, q); if &s2 != o { return crate::ctx::inconclusive(format!("occurrence oracle disagrees with a scan for pattern {:?}: {} vs {}", q, o.len(), s2.len())); } } }
+    let mut q = h.text.clone(); q.push(0); out.push((q, vec![]));                                                                                                             // longer than the text
+    out.push((vec![], (0..n).collect()));
+    Ok(out)
+}
+fn check_range_huge(c: &mut Case, pat: &[u8], occ: &[usize], left: usize, right: usize, n: usize, rank2pos: &dyn Fn(usize) -> Option<usize>, what: &str) -> Res {
+    ensure!(left <= right.max(left) && right <= n, "search_range", "{what}: pattern {} -> range ({left},{right}) outside 0..={n}", gen::abbrev(pat));
+    let mut got: Vec<usize> = vec![];
+    for r in left..right { match rank2pos(r) { Some(p) => got.push(p), None => return Err(bad("search_range", format!("{what}: rank {r} of range ({left},{right}) has no suffix"))) } }
+    got.sort();
+    if got != occ { return Err(bad("search_positions", format!("{what}: pattern {} (len {}): range ({left},{right}) gives {} positions, the text holds {}; got {:?}.. want {:?}..", gen::abbrev(pat), pat.len(), got.len(), occ.len(), &got[..got.len().min(8)], &occ[..occ.len().min(8)]))); }
+    c.ev(1); c.note(if pat.is_empty() { "pat_empty" } else if pat.len() > n { "pat_longer" } else if occ.is_empty() { "pat_absent" } else { "pat_present" }, 1);
+    if pat.len() > 65_535 && !occ.is_empty() { c.note("pat_present_gt65535", 1); }
+    Ok(())
+}
+
+fn case_sa_huge(c: &mut Case, name: &str, fam: &str) -> Res {
+    let (h, _) = huge_setup(c, fam)?; let n = h.text.len();
+    let sa = if name == "new" { let cfg = ACfg::default(); tag_for_cfg(c, &cfg, &h.text);
+        match catch(|| SuffixArray::new(&h.text)) { Ok(Ok(s)) => s, Ok(Err(e)) => return Err(bad("ctor_err", format!("SuffixArray::new failed: {e}"))), Err(p) => return Err(bad(&p.class(), format!("SuffixArray::new panicked at {}: {}", p.loc, p.msg))) }
+    } else { let cfg = acfg(c, name); tag_for_cfg(c, &cfg, &h.text); build_a(&h.text, &cfg, true)? };
+    ensure!(sa.text_len() == n, "text_len", "text_len()={} want {n}", sa.text_len());
+    check_sa_huge(c, &h, sa.as_slice(), name)?;
+    for r in [0usize, 65_535, 65_536, 65_537, n - 1] { if r < n { ensure!(sa.suffix_at_rank(r) == Some(sa.as_slice()[r]), "suffix_at_rank", "suffix_at_rank({r})"); } }
+    ensure!(sa.suffix_at_rank(n).is_none(), "suffix_at_rank", "suffix_at_rank(n) is Some");
+    Ok(())
+}
+fn case_lcp_huge(c: &mut Case, name: &str, fam: &str) -> Res {
+    let (h, _) = huge_setup(c, fam)?; let n = h.text.len();
+    let cfg = acfg(c, name); tag_for_cfg(c, &cfg, &h.text);
+    let sa = build_a(&h.text, &cfg, false)?;
+    let l = match catch(|| LcpArray::new(&h.text, &sa)) { Ok(Ok(l)) => l, Ok(Err(e)) => return Err(bad("lcp_err", format!("LcpArray::new failed: {e}"))), Err(p) => return Err(bad(&p.class(), format!("LcpArray::new panicked at {}: {}", p.loc, p.msg))) };
+    check_lcp_huge(c, &h, sa.as_slice(), l.as_slice(), name)?;
+    ensure!(l.lcp_at(n - 1) == Some(l.as_slice()[n - 1]) && l.lcp_at(n).is_none(), "lcp_at", "lcp_at at the end");
+    Ok(())
+}
+fn case_search_huge(c: &mut Case, name: &str, fam: &str) -> Res {
+    let (h, anchors) = huge_setup(c, fam)?; let n = h.text.len();
+    let cfg = acfg(c, name); tag_for_cfg(c, &cfg, &h.text);
+    let sa = build_a(&h.text, &cfg, false)?;
+    ensure!(sa.as_slice().len() == n, "sa_len", "suffix array has {} entries, text {n}", sa.as_slice().len());
+    for (r, &p) in sa.as_slice().iter().enumerate() { ensure!(p < n, "sa_not_permutation", "SA[{r}]={p} out of range"); }
+    for (pat, occ) in huge_patterns(c, &h, &anchors)? {
+        let (l, r) = match catch(|| sa.search_range(&h.text, &pat)) { Ok(x) => x, Err(p) => return Err(bad(&p.class(), format!("search_range panicked at {}: {}", p.loc, p.msg))) };
+        check_range_huge(c, &pat, &occ, l, r, n, &|k| sa.suffix_at_rank(k), "search_range")?;
+        let (s, cnt) = match catch(|| sa.search(&h.text, &pat)) { Ok(x) => x, Err(p) => return Err(bad(&p.class(), format!("search panicked at {}: {}", p.loc, p.msg))) };
+        ensure!(cnt == r.saturating_sub(l) && (cnt == 0 || s == l), "search_count", "search(len {})=({s},{cnt}) but search_range=({l},{r})", pat.len());
+    }
+    Ok(())
+}
+fn case_esa_huge(c: &mut Case, bwt: bool, fam: &str) -> Res {
+    let (h, _) = huge_setup(c, fam)?; let n = h.text.len(); tag_for_cfg(c, &ACfg::default(), &h.text);
+    if bwt {
+        let e = match catch(|| AEsa::with_bwt(&h.text)) { Ok(Ok(e)) => e, Ok(Err(e)) => return Err(bad("ctor_err", format!("with_bwt failed: {e}"))), Err(p) => return Err(bad(&p.class(), format!("with_bwt panicked at {}: {}", p.loc, p.msg))) };
+        let b = match e.bwt() { Some(b) => b, None => return Err(bad("bwt_missing", "with_bwt() built no BWT".into())) };
+        ensure!(b.len() == n, "bwt_len", "bwt has {} bytes, text {n}", b.len());
+        for i in 0..n { let want = h.text[(h.sa[i] as usize + n - 1) % n]; ensure!(b[i] == want, "bwt_value", "bwt[{i}]={:#x} want {want:#x} (true SA[{i}]={})", b[i], h.sa[i]); }
+        c.ev(n as u64); Ok(())
+    } else {
+        let e = match catch(|| AEsa::with_lcp(&h.text)) { Ok(Ok(e)) => e, Ok(Err(e)) => return Err(bad("ctor_err", format!("with_lcp failed: {e}"))), Err(p) => return Err(bad(&p.class(), format!("with_lcp panicked at {}: {}", p.loc, p.msg))) };
+        let l = match e.lcp_array() { Some(l) => l, None => return Err(bad("lcp_missing", "with_lcp() built no LCP array".into())) };
+        check_lcp_huge(c, &h, e.suffix_array().as_slice(), l.as_slice(), "esa/lcp")
+    }
+}
+fn case_csa_huge(c: &mut Case, name: &str, fam: &str, search: bool) -> Res {
+    let (h, anchors) = huge_setup(c, fam)?; let n = h.text.len(); c.input_str("cfg", name); sentinel_tag(c, &h.text); tag_sais(c, &h.text, false);
+    let e = build_c(name, &h.text)?;
+    // IntVec::get is O(index) for its (non-uniform) delta strategy, which a sorted array of > 10 000 elements gets: when the true suffix array is
+    // ascending (a^k b with a < b, sorted texts) every suffix_at_rank(r) costs O(r).  Decided from the input only: read sampled ranks / small blocks then.
+    let slow_get = h.sa.windows(2).all(|w| w[0] <= w[1]); if slow_get { c.note("csa_sorted_sa_sampled", 1); }
+    if search {
+        for (pat, occ) in huge_patterns(c, &h, &anchors)?.into_iter().filter(|(p, o)| !p.is_empty() && !(slow_get && o.len() > 1500)) {
+            let (l, r) = match catch(|| e.find_pattern_range(&h.text, &pat)) { Ok(x) => x, Err(p) => return Err(bad(&p.class(), format!("find_pattern_range panicked at {}: {}", p.loc, p.msg))) };
+            check_range_huge(c, &pat, &occ, l, r, n, &|k| e.suffix_at_rank(k), "find_pattern_range")?;
+            let got = match catch(|| e.find_pattern(&h.text, &pat)) { Ok(x) => x, Err(p) => return Err(bad(&p.class(), format!("find_pattern panicked at {}: {}", p.loc, p.msg))) };
+            ensure!(got == occ, "find_pattern", "find_pattern(len {}) gives {} positions, the text holds {}", pat.len(), got.len(), occ.len());
+            let cnt = e.count_pattern(&h.text, &pat); ensure!(cnt == occ.len(), "count_pattern", "count_pattern(len {})={cnt} want {}", pat.len(), occ.len());
+            c.ev(2);
+        }
+        return Ok(());
+    }
+    ensure!(e.len() == n && e.text_len() == n && !e.is_empty(), "sa_len", "len()={} text_len()={} want {n}", e.len(), e.text_len());
+    ensure!(e.suffix_at_rank(n).is_none(), "suffix_at_rank", "suffix_at_rank(n) is Some");
+    let sa: Vec<usize> = if slow_get {
+        let mut ranks: Vec<usize> = (0..n.min(64)).collect(); ranks.extend([65_534usize, 65_535, 65_536, 65_537, 131_071, 131_072, 131_073, n - 2, n - 1].iter().copied().filter(|&r| r < n));
+        for _ in 0..400 { ranks.push(c.rng.usize_below(n)); }
+        for r in ranks { match e.suffix_at_rank(r) { Some(p) => ensure!(p == h.sa[r] as usize, "sa_order", "{name}: rank {r}: got suffix@{p} but the sorted order has suffix@{} there (n={n})", h.sa[r]), None => return Err(bad("suffix_at_rank", format!("suffix_at_rank({r}) is None, n={n}"))) } c.ev(1); }
+        h.sa.iter().map(|&x| x as usize).collect()      // verified on the sample; used below only to address the LCP pairs
+    } else {
+        let mut sa = Vec::with_capacity(n);
+        for r in 0..n { match e.suffix_at_rank(r) { Some(p) => sa.push(p), None => return Err(bad("suffix_at_rank", format!("suffix_at_rank({r}) is None, n={n}"))) } }
+        check_sa_huge(c, &h, &sa, name)?; sa
+    };
+    if ccfg(name).compute_lcp {
+        // sampled ranks only: IntVec::get is O(index) for its delta strategy (a sorted LCP array such as that of a^k b), so reading all n values is quadratic
+        let mut ranks: Vec<usize> = (0..n.min(64)).collect(); ranks.extend([65_534usize, 65_535, 65_536, 65_537, 131_071, 131_072, 131_073, n - 2, n - 1].iter().copied().filter(|&r| r < n));
+        if let Some(rmax) = (0..n).max_by_key(|&r| h.lcps[r]) { ranks.push(rmax); if rmax + 1 < n { ranks.push(rmax + 1); } }
+        for _ in 0..300 { ranks.push(c.rng.usize_below(n)); }
+        for r in ranks { let want = if r == 0 { 0 } else { h.lcp(sa[r - 1], sa[r]) };
+            match e.lcp_at(r) { Some(v) => ensure!(v == want, "lcp_value", "{name}: lcp_at({r})={v} want {want} (suffixes @{} and @{}, n={n})", sa[r.saturating_sub(1)], sa[r]), None => return Err(bad("lcp_len", format!("lcp_at({r}) is None although compute_lcp=true, n={n}"))) }
+            c.ev(1); }
+        ensure!(e.lcp_at(n).is_none(), "lcp_len", "lcp_at(n) is Some");
+    }
+    Ok(())
+}
+fn case_dict_huge(c: &mut Case, name: &str, fam: &str) -> Res {
+    let (h, anchors) = huge_setup(c, fam)?; let n = h.text.len(); let text = &h.text;
+    let mut cfg = SuffixArrayDictionaryConfig::default();
+    if name != "default" {
+        cfg.min_pattern_length = *c.rng.pick(&[1usize, 4, 8]); cfg.max_pattern_length = 1 << 24; cfg.min_frequency = *c.rng.pick(&[4u32, 8]);   // min_frequency >= 4 keeps the DFA cache small
+        cfg.max_bfs_depth = *c.rng.pick(&[0u32, 3, 6]); cfg.use_memory_pool = c.rng.bool();
+        cfg.suffix_array_config.algorithm = if name == "sais" { Alg::SAIS } else { *c.rng.pick(&[Alg::DivSufSort, Alg::LarssonSadakane, Alg::Adaptive]) };
+    }
+    c.input_str("cfg", &format!("min={} max={} freq={} bfs={} pool={} alg={:?}", cfg.min_pattern_length, cfg.max_pattern_length, cfg.min_frequency, cfg.max_bfs_depth, cfg.use_memory_pool, cfg.suffix_array_config.algorithm));
+    tag_for_cfg(c, &cfg.suffix_array_config.clone(), text);
+    let minl = cfg.min_pattern_length;
+    let mut d = match catch(|| SuffixArrayDictionary::new(text, cfg)) { Ok(Ok(d)) => d, Ok(Err(e)) => return Err(bad("ctor_err", format!("SuffixArrayDictionary::new failed: {e}"))), Err(p) => return Err(bad(&p.class(), format!("SuffixArrayDictionary::new panicked at {}: {}", p.loc, p.msg))) };
+    ensure!(d.dictionary_text() == &text[..], "dict_text", "dictionary_text differs from the training data");
+    let o = DictOracle { sa: h.sa.iter().map(|&x| x as usize).collect(), text: text.clone() };
+    // queries are dictionary substrings (optionally + 1 byte), so the longest match is known from the occurrence block
+    let mut qs: Vec<(usize, usize)> = if name == "default" { (0..8).map(|_| { let p = c.rng.usize_below(n); (p, 1 + c.rng.usize_below((n - p).min(200))) }).collect() } else { anchors.clone() };
+    for _ in 0..3 { let p = c.rng.usize_below(n); qs.push((p, 1 + c.rng.usize_below((n - p).min(200)))); }
+    for (p, m) in qs { if m == 0 || p + m > n { continue; }
+        let extra = if c.rng.bool() { Some(c.rng.next() as u8) } else { None };
+        let mut q = text[p..p + m].to_vec(); if let Some(x) = extra { q.push(x); }
+        let want = match extra { Some(x) if !h.occ(p, m + 1, Some(x)).is_empty() => m + 1, _ => m };
+        let got = match catch(|| d.find_longest_match(&q, 0, usize::MAX)) { Ok(Ok(x)) => x, Ok(Err(e)) => return Err(bad("dict_longest_err", format!("find_longest_match failed: {e}"))), Err(pn) => return Err(bad(&pn.class(), format!("find_longest_match panicked at {}: {}", pn.loc, pn.msg))) };
+        match &got {
+            Some(mm) => {
+                ensure!(mm.dict_position + mm.length <= n && mm.length <= q.len() && text[mm.dict_position..mm.dict_position + mm.length] == q[..mm.length], "dict_longest_unsound", "find_longest_match reports length {} at dict position {} but the bytes differ / run out (query = dict[{p}..{}]{})", mm.length, mm.dict_position, p + m, if extra.is_some() { " + 1 byte" } else { "" });
+                ensure!(mm.length == want, "dict_longest_len", "find_longest_match length {} but the dictionary holds a match of length {want} (query = dict[{p}..{}]{})", mm.length, p + m, if extra.is_some() { " + 1 byte" } else { "" });
+                ensure!(mm.length >= minl, "dict_longest_len", "match of length {} below min_pattern_length {minl}", mm.length);
+                c.note("dict_match", 1); if mm.length > 65_535 { c.note("dict_match_gt65535", 1); } if mm.dict_position > 65_535 { c.note("dict_pos_gt65535", 1); }
+            }
+            None => { ensure!(want < minl, "dict_longest_len", "find_longest_match found nothing but the dictionary holds a match of length {want} (>= min {minl})"); c.note("dict_nomatch", 1); }
+        }
+        let st = match catch(|| d.da_match_max_length(&q)) { Ok(s) => s, Err(pn) => return Err(bad(&pn.class(), format!("da_match_max_length panicked at {}: {}", pn.loc, pn.msg))) };
+        ensure!(st.depth == want, "dict_status_depth", "da_match_max_length depth {} want {want}", st.depth);
+        let (lo, hi) = o.range(&q[..want]); ensure!((st.lo, st.hi) == (lo, hi), "dict_status_range", "da_match_max_length range ({},{}) want ({lo},{hi}) for prefix of length {want}", st.lo, st.hi);
+        // sa_equal_range on the true range of a prefix of the query
+        let k = if c.rng.bool() { want.saturating_sub(1) } else { c.rng.usize_below(want + 1) }; let (lo, hi) = o.range(&q[..k]);
+        for ch in [if k < q.len() { q[k] } else { c.rng.next() as u8 }, c.rng.next() as u8] {
+            let mut p2 = q[..k].to_vec(); p2.push(ch); let (wl, wh) = o.range(&p2);
+            let (gl, gh) = match catch(|| d.sa_equal_range(lo, hi, k, ch)) { Ok(x) => x, Err(pn) => return Err(bad(&pn.class(), format!("sa_equal_range panicked at {}: {}", pn.loc, pn.msg))) };
+            if wl >= wh { ensure!(gl >= gh, "dict_equal_range", "sa_equal_range({lo},{hi},{k},{ch:#x}) = ({gl},{gh}) but no suffix in the range continues with that byte"); }
+            else { ensure!((gl, gh) == (wl, wh), "dict_equal_range", "sa_equal_range({lo},{hi},{k},{ch:#x}) = ({gl},{gh}) want ({wl},{wh})"); }
+        }
+        // find_all_matches for the query without the extra byte
+        if m >= minl && name != "default" || (name == "default" && m >= minl && m <= 256) {
+            let occ = h.occ(p, m, None);
+            let ms = match catch(|| d.find_all_matches(&text[p..p + m], usize::MAX)) { Ok(Ok(x)) => x, Ok(Err(e)) => return Err(bad("dict_find_all_err", format!("find_all_matches failed: {e}"))), Err(pn) => return Err(bad(&pn.class(), format!("find_all_matches panicked at {}: {}", pn.loc, pn.msg))) };
+            let mut g: Vec<usize> = ms.iter().map(|x| x.dict_position).collect(); g.sort();
+            ensure!(g == occ, "dict_find_all", "find_all_matches(dict[{p}..{}]) gives {} positions, the dictionary holds {}", p + m, g.len(), occ.len());
+        }
+        c.ev(5);
+    }
+    Ok(())
+}
+
 // ------------------------------------------------------------------------------------------------------------------
 pub fn run(ctx: &mut Ctx) {
     let exh_max = if ctx.quick() || ctx.pinned { 6 } else { 9 };   // lengths 0..=3 are the DESIGN's small scope; 4.. extend it
@@ -536,6 +829,26 @@ pub fn run(ctx: &mut Ctx) {
             for k in ["default", "dict"] { ctx.case(&format!("csa_search/{k}"), fam, idx, |c| { let t = text_of(&mut c.rng, fam, maxlen); let t = maybe_sentinel(c, t, idx); let p = patterns_for(&mut c.rng, &t); case_csa_search(c, k, t, p) }); }
             // dictionaries: <= 800 bytes, plus one "big" one per seed (>= the Adaptive threshold, up to 50 003 bytes)
             if !big || idx < 1 { for k in ["default", "cfg", "sais"] { ctx.case(&format!("dict/{k}"), fam, idx, |c| { let t = text_of(&mut c.rng, fam, 800); case_dict(c, k, t) }); } }
+        }
+    }
+    // ---- huge inputs (see `Huge`): a handful per target; comparison-sort algorithms skip the shapes that cost them O(n^2 log n)
+    for fam in HUGE_FAMS {
+        let (periodic, m1) = (*fam == "huge_periodic", *fam == "huge_1m");
+        let cnt = if m1 { ctx.n(1, 6) } else { ctx.n(1, 24) } as u64;
+        for idx in 0..cnt {
+            for a in algs.iter().chain(["sais_noopt", "new"].iter()) {
+                if periodic && ["dc3", "divsufsort", "ls"].contains(a) { continue; }
+                if m1 && ctx.quick() && !["sais", "ls", "adaptive"].contains(a) { continue; }
+                ctx.case(&format!("sa/{a}"), fam, idx, |c| case_sa_huge(c, a, fam));
+            }
+            if m1 && ctx.quick() { ctx.case("csa/default", fam, idx, |c| case_csa_huge(c, "default", fam, false)); continue; }
+            let long_lcp = ["huge_xcxd", "huge_akb", "huge_runs", "huge_periodic"].contains(fam);
+            if long_lcp || !ctx.quick() { for a in algs { if periodic && ["dc3", "divsufsort", "ls"].contains(&a) { continue; } ctx.case(&format!("lcp/{a}"), fam, idx, |c| case_lcp_huge(c, a, fam)); } }
+            if ["huge_xcxd", "huge_akb", "huge_runs"].contains(fam) || !ctx.quick() { for a in algs { if periodic && ["dc3", "divsufsort", "ls"].contains(&a) { continue; } ctx.case(&format!("search/{a}"), fam, idx, |c| case_search_huge(c, a, fam)); } }
+            if ["huge_xcxd", "huge_akb", "huge_periodic"].contains(fam) || !ctx.quick() { ctx.case("esa/lcp", fam, idx, |c| case_esa_huge(c, false, fam)); ctx.case("esa/bwt", fam, idx, |c| case_esa_huge(c, true, fam)); }
+            for k in ["default", "dict", "large", "realtime"] { if ctx.quick() && !long_lcp && k != "dict" { continue; } ctx.case(&format!("csa/{k}"), fam, idx, |c| case_csa_huge(c, k, fam, false)); }
+            if ["huge_xcxd", "huge_akb", "huge_periodic"].contains(fam) || !ctx.quick() { for k in ["default", "dict"] { ctx.case(&format!("csa_search/{k}"), fam, idx, |c| case_csa_huge(c, k, fam, true)); } }
+            if ["huge_xcxd", "huge_akb", "huge_runs"].contains(fam) { for k in ["default", "cfg", "sais"] { ctx.case(&format!("dict/{k}"), fam, idx, |c| case_dict_huge(c, k, fam)); } }
         }
     }
 }
